@@ -50,6 +50,8 @@ class FuncRun(ExprMixin, InstrMixin, CallMixin):
         self.inlined = set()
         self.facted = set()
         self.fnvals = {}
+        self.closure_slots = {}
+        self.escaped_closures = []
         self.kind_counts = {}
         self.rec_seen = {}
         self.rec_defs = []
@@ -279,6 +281,11 @@ class FuncRun(ExprMixin, InstrMixin, CallMixin):
         if isinstance(val, ClosureV):
             idt = T.fresh('fnval')
             self.fnvals[idt] = val
+            if ptr.kind != 'elem' and not self.mute and val not in self.escaped_closures:
+                self.escaped_closures.append(val)        # stored in an object: may be called from any task
+            if ptr.kind == 'elem':
+                # function literals put into a (variadic) argument slice: found again by fork/join combinators
+                self.closure_slots[(ptr.a, ptr.b)] = val
             val = idt
         flat = self.ty.flatten(val, tn)
         for (p, s, lt), v in zip(self.ty.leaves(tn), flat):
